@@ -77,7 +77,7 @@ extern long vh_mmap_capped;
    counted together while armed) fails.  0 = none. */
 extern long vh_fail_at[2];
 extern long vh_req_count;            /* requests seen while counting */
-extern int vh_seam_armed;            /* count/fail/ledger only while set */
+extern volatile int vh_seam_armed;            /* count/fail/ledger only while set */
 extern char vh_req_log[256];         /* kinds of requests: m r f M U */
 typedef void (*vh_release_cb) (const void *p, size_t n, int kind);
 extern vh_release_cb vh_on_release;  /* called before free/munmap/realloc of a ledger block */
